@@ -8,17 +8,22 @@ EXTENDS ElementsEnv, Json, IOUtils, TLC
 Rec == ndJsonDeserialize(IOEnv.TRACE)
 VARIABLE l
 S(x) == ToString(x)
-Wrong(e) == {k \in 1..Len(e.answers) : S(e.answers[k][3]) # S(J(e.answers[k][1], e.desc, e.answers[k][2]))}
+\* field jets are judged here; hash jets get their symbolic digests printed (TERMS) for the harness to hash and compare
+Wrong(e) == {k \in 1..Len(e.answers) : e.answers[k][1] \notin HashJets /\ S(e.answers[k][3]) # S(J(e.answers[k][1], e.desc, e.answers[k][2]))}
+HashIdx(e) == SelectSeq([k \in 1..Len(e.answers) |-> k], LAMBDA k : e.answers[k][1] \in HashJets)
+Terms(e) == [j \in 1..Len(HashIdx(e)) |-> LET a == e.answers[HashIdx(e)[j]] IN <<a[1], a[2], JH(a[1], e.desc, a[2]), a[3]>>]
 Clauses(e) ==
   <<
    e.build = "ok",
-   \A k \in 1..Len(e.answers) : e.answers[k][1] \in AllJets,
+   \A k \in 1..Len(e.answers) : e.answers[k][1] \in AllJets \cup HashJets,
    Wrong(e) = {},
    S(e.sighash_jet) = S(e.sighash_env)
   >>
 AllTrue(cl) == \A k \in 1..Len(cl) : cl[k]
 Init == l = 1
-Next == l <= Len(Rec) /\ (AllTrue(Clauses(Rec[l])) = TRUE) /\ l' = l + 1
+Next == /\ l <= Len(Rec) /\ (AllTrue(Clauses(Rec[l])) = TRUE)
+        /\ (Rec[l].build = "ok" => PrintT(<<"TERMS", ToJson([ev |-> l, items |-> Terms(Rec[l])])>>))
+        /\ l' = l + 1
 Spec == Init /\ [][Next]_l
 FirstWrong(e) == IF e.build = "ok" /\ Wrong(e) # {} THEN LET k == CHOOSE k \in Wrong(e) : \A j \in Wrong(e) : k <= j IN
                     <<e.answers[k], J(e.answers[k][1], e.desc, e.answers[k][2])>> ELSE <<>>
